@@ -120,16 +120,20 @@ def build(spec):
     frame = spec['frame']
     pix = frame == 'image'
     if pix:
+        # the Python / NumPy type the user gives pixel numbers in (the model sees only the exact value)
+        K = num_kind(spec.get('numkind', 'float'))
+        KS = num_kind('float' if spec.get('numkind') == 'arr0' else spec.get('numkind', 'float'))
+
         def co(c):
-            return R.PixCoord(_q(c[0]), _q(c[1]))
+            return R.PixCoord(K(_q(c[0])), K(_q(c[1])))
 
         def cos(cs):
-            return R.PixCoord([_q(c[0]) for c in cs], [_q(c[1]) for c in cs])
+            return R.PixCoord([K(_q(c[0])) for c in cs], [K(_q(c[1])) for c in cs])
 
         def sz(i):
-            return _q(spec['nums'][i])
+            return KS(_q(spec['nums'][i]))
     else:
-        fr = ASTROPY_FRAME.get(frame, frame)
+        fr = frame_instance(frame, spec.get('attrs'))
 
         def co(c):
             return SkyCoord(_q(c[0]), _q(c[1]), unit='deg', frame=fr)
@@ -172,6 +176,27 @@ def build(spec):
     raise ValueError(cls)
 
 
+NUM_KINDS = ['float', 'float', 'float', 'int', 'f64', 'f32', 'i64', 'i32', 'i16', 'arr0']
+INT_KINDS = {'int': 2 ** 40, 'i64': 2 ** 40, 'i32': 2 ** 30, 'i16': 30000}
+
+
+def num_kind(name):
+    import numpy as np
+    return {'float': float, 'int': lambda v: int(v), 'f64': np.float64, 'f32': np.float32,
+            'i64': lambda v: np.int64(int(v)), 'i32': lambda v: np.int32(int(v)), 'i16': lambda v: np.int16(int(v)),
+            'arr0': lambda v: np.array(float(v))}[name]      # 0-d array: accepted for coordinates only
+
+
+def frame_instance(frame, attrs):
+    """astropy frame (name, or an instance carrying non-default equinox / obstime)."""
+    name = ASTROPY_FRAME.get(frame, frame)
+    if not attrs:
+        return name
+    import astropy.coordinates as ac
+    cls = {'fk5': ac.FK5, 'fk4': ac.FK4, 'barycentricmeanecliptic': ac.BarycentricMeanEcliptic}[name]
+    return cls(**attrs)
+
+
 def expressible(spec):
     return spec['cls'] != 'compound' and spec['frame'] in FRAMES
 
@@ -206,6 +231,25 @@ def canon(region):
                 break
         frame = {v: k for k, v in ASTROPY_FRAME.items()}.get(frame, frame)
     coords, nums, text = [], [], None
+    std = []
+    nondefault = False
+
+    def std_list(v):
+        """positions in the frame with its DEFAULT attributes, computed on a fresh SkyCoord (independent of
+        the writer): SkyCoord(lon, lat, frame=<same attributes>).transform_to(FrameClass(), merge_attributes=False)"""
+        nonlocal nondefault
+        import numpy as np
+        from astropy.coordinates import SkyCoord
+        cls = type(v.frame)
+        if v.frame.is_equivalent_frame(cls()):
+            return co_list(v)
+        nondefault = True
+        fresh = SkyCoord(np.atleast_1d(v.spherical.lon.to_value(u.deg)) * u.deg,
+                         np.atleast_1d(v.spherical.lat.to_value(u.deg)) * u.deg,
+                         frame=v.frame.replicate_without_data())
+        t = fresh.transform_to(cls(), merge_attributes=False)
+        return [[frac(Fraction(float(x))), frac(Fraction(float(y)))]
+                for x, y in zip(t.spherical.lon.to_value(u.deg), t.spherical.lat.to_value(u.deg))]
     src = region
     if shape == 'regularpolygon':
         # the writer works on region.to_polygon() (vertices and deep-copied meta/visual: a Path marker
@@ -219,13 +263,18 @@ def canon(region):
                 text = pyval(v)
             elif pn in ('center', 'vertices', 'start', 'end'):
                 coords += co_list(v)
+                if not pix:
+                    std += std_list(v)
             elif isinstance(v, u.Quantity):
                 nums.append(frac(Fraction(float(v.to_value(u.deg)))))
             else:
                 nums.append(frac(Fraction(float(v))))
-    return {'shape': shape, 'frame': frame, 'coords': coords, 'nums': nums, 'text': text,
-            'meta': [[k, pyval(v)] for k, v in dict.items(src.meta)],
-            'visual': [[k, pyval(v)] for k, v in dict.items(src.visual)]}
+    out = {'shape': shape, 'frame': frame, 'coords': coords, 'nums': nums, 'text': text,
+           'meta': [[k, pyval(v)] for k, v in dict.items(src.meta)],
+           'visual': [[k, pyval(v)] for k, v in dict.items(src.visual)]}
+    if nondefault:
+        out['std'] = std        # where the region is in the frame the DS9 word names (F35)
+    return out
 
 
 # ---------------------------------------------------------------------------- text helpers (harness side)
@@ -343,6 +392,8 @@ class Check(PropertyCheck):
     namespaces = ['RegionsVerif.Props.C09']
     rule = ('lists of 1..8 regions: all ten DS9 shapes (+ regular polygon) x frames {image, icrs, fk5, fk4, galactic, '
             'ecliptic} x precision 1..12 x magnitudes 1e-3..1e6 (dyadic values incl. exact rounding ties, decimal-looking '
+            'values, random doubles; pixel numbers given as Python int/float or NumPy float64/float32/int64/int32/int16 '
+            'scalars, coordinates also as 0-d arrays; '
             'values, random doubles) x sky units {deg, arcmin, arcsec, rad} x meta/visual vocabulary (include '
             'True/False/1/0, text with spaces ; # = quotes, numeric-looking text, 1..3 tags, colour names and #hex, '
             'face/edgecolor, linewidth int/float, fill, font fields, dashed / dash tuples, markers incl. Path markers, '
@@ -583,10 +634,53 @@ class Check(PropertyCheck):
                 # values above were meant in degrees
         spec['nums'] = nums
         spec['units'] = units
+        if pix and not tiny:
+            self._apply_kind(rng, spec)
         if rng.random() < 0.2:
             spec['angle_cls'] = 'Angle'
         spec['meta'], spec['visual'] = self._meta(rng, cls)
+        if frame in ('fk5', 'fk4', 'ecliptic') and rng.random() < 0.15:
+            # the same frame at another equinox / obstime (FK5(equinox=J1975) is an fk5 coordinate)
+            spec['attrs'] = rng.choice({
+                'fk5': [{'equinox': 'J1975'}, {'equinox': 'J2015.5'}, {'equinox': 'B1950'}],
+                'fk4': [{'equinox': 'B1975'}, {'equinox': 'B1900'}, {'equinox': 'B1950', 'obstime': 'J2000'},
+                        {'equinox': 'B1975', 'obstime': 'B1950'}],
+                'ecliptic': [{'equinox': 'J1975'}, {'equinox': 'J2050'}]}[frame])
         return spec
+
+    @staticmethod
+    def _apply_kind(rng, spec):
+        """give the pixel numbers of a region as Python int/float, NumPy float64/float32/int64/int32/int16 scalars
+        (coordinates also as 0-d arrays); values are made exactly representable in that type"""
+        import numpy as np
+        kind = rng.choice(NUM_KINDS)
+        if kind == 'float':
+            return
+        spec['numkind'] = kind
+        cls = spec['cls']
+        nsz = len(spec['nums']) - (1 if cls in ('ellipse', 'rectangle', 'ellipseannulus', 'rectangleannulus',
+                                                  'regularpolygon') else 0)
+
+        def conv(v, positive):
+            v = Fraction(v)
+            if kind in INT_KINDS:
+                n = int(round(v))
+                n = max(-INT_KINDS[kind], min(INT_KINDS[kind], n))
+                return Fraction(max(1, n) if positive else n)
+            if kind == 'f32':
+                w = Fraction(float(np.float32(float(v))))
+                return w if (w > 0 or not positive) else Fraction(float(np.float32(1e-3)))
+            return v
+        if kind != 'arr0':
+            sizes = [conv(v, True) for v in spec['nums'][:nsz]]
+            # keep inner < outer
+            pairs = {'circleannulus': [(0, 1)], 'ellipseannulus': [(0, 1), (2, 3)], 'rectangleannulus': [(0, 1), (2, 3)]}
+            for i, o in pairs.get(cls, []):
+                if sizes[o] <= sizes[i]:
+                    sizes[o] = sizes[i] + 1 if kind in INT_KINDS else \
+                        Fraction(float(np.nextafter(np.float32(float(sizes[i])), np.float32(np.inf))))
+            spec['nums'] = [frac(v) for v in sizes] + spec['nums'][nsz:]
+        spec['coords'] = [[frac(conv(c[0], False)), frac(conv(c[1], False))] for c in spec['coords']]
 
     @staticmethod
     def _malform(rng, spec):
@@ -726,11 +820,11 @@ class Check(PropertyCheck):
 
     @staticmethod
     def _cfg(reqs):
-        """testing aid: C09_CFG=111 (skip, includeInt, orderedGlobal) makes the driver model a tree with those
-        repairs applied (used with REGIONS_SRC=<patched copy>); default = Impl codeCfg."""
+        """testing aid: C09_CFG=1111 (skip, includeInt, orderedGlobal, stdAttrs) makes the driver model a tree with
+        those repairs applied (used with REGIONS_SRC=<patched copy>); default = Impl codeCfg."""
         c = os.environ.get('C09_CFG')
         if c:
-            cfg = dict(zip(('skip', 'includeInt', 'orderedGlobal'), (ch == '1' for ch in c)))
+            cfg = dict(zip(('skip', 'includeInt', 'orderedGlobal', 'stdAttrs'), (ch == '1' for ch in c)))
             for r in reqs:
                 r['cfg'] = cfg
         return reqs
@@ -928,14 +1022,22 @@ class Check(PropertyCheck):
             if len(a['coords']) != len(b['coords']) or len(a['nums']) != len(b['nums']):
                 bad('arity_changed', f'region {i}')
                 continue
-            for ca, cb in zip(a['coords'], b['coords']):
+            # a frame with non-default equinox/obstime: the DS9 word names the default-attribute frame, so the
+            # region must come back at its position THERE (a['std'], computed by canon on a fresh SkyCoord)
+            want = a.get('std', a['coords'])
+            for ca, cb, cown in zip(want, b['coords'], a['coords']):
                 for j in (0, 1):
                     x, y = Fraction(ca[j]), Fraction(cb[j])
                     d = abs(x - y)
                     if not pix and j == 0:
                         d = min(d % 360, 360 - d % 360)
                     if d > H + ulp_slop(x) * 4:
-                        bad('coord_tolerance', f'region {i}: {float(x)!r} -> {float(y)!r}')
+                        own = abs(Fraction(cown[j]) - y)
+                        if not pix and j == 0:
+                            own = min(own % 360, 360 - own % 360)
+                        bad('coord_tolerance', f'region {i} ({a["frame"]}): {float(x)!r} -> {float(y)!r}',
+                            nondefault_attrs='std' in a,
+                            untransformed=own <= H + ulp_slop(Fraction(cown[j])) * 4)
             ell = a['shape'] in ('ellipse', 'ellipseannulus')
             for j, (na, nb) in enumerate(zip(a['nums'], b['nums'])):
                 x, y = Fraction(na), Fraction(nb)
@@ -998,6 +1100,9 @@ class Check(PropertyCheck):
             return kind == 'not_fixed_point' and v.get('only_include_added') and v.get('bool_include_written')
         if fid == 'F5':
             return kind == 'nondeterministic' and v.get('only_global_order')
+        if fid == 'F35':
+            # the frame has a non-default equinox/obstime and the region came back at its untransformed numbers
+            return kind == 'coord_tolerance' and bool(v.get('nondefault_attrs')) and bool(v.get('untransformed'))
         if fid == 'F19':
             return (kind == 'parse_exception' and v.get('exc') == 'ValueError'
                     and "'text' must be a string" not in v.get('msg', '') and printed_degenerate(v.get('text', '')))
@@ -1013,6 +1118,10 @@ class Check(PropertyCheck):
         b = 'bad' if any(not expressible(s) for s in specs) else 'ok'
         n = len(specs)
         k = 'malformed/' if case.get('kind') == 'malformed' else ''
+        if any(s.get('attrs') for s in specs):
+            k += 'attrs/'
+        if any(s.get('numkind') for s in specs):
+            k += 'nptypes/'
         return f'{k}{f}/{b}/n{"1" if n == 1 else "2-4" if n <= 4 else "5+"}/p{"lo" if case["precision"] <= 4 else "mid" if case["precision"] <= 8 else "hi"}'
 
     # ---------------------------------------------------------------- whole-run checks
